@@ -149,7 +149,11 @@ def _run_shard(path):
     m = re.search(r"Cnt = (\d+)", flat)
     if m:
         cnt = int(m.group(1))
-    return dict(path=path, rc=rc, out=out, fails=fails, count=cnt, wall=time.time() - t0)
+    hyp = None
+    m = re.search(r"Hyp = (\d+)", flat)
+    if m:
+        hyp = int(m.group(1))
+    return dict(path=path, rc=rc, out=out, fails=fails, count=cnt, hyp=hyp, wall=time.time() - t0)
 
 
 def run_shards(outdir, workers=16, only_index=None):
